@@ -12,6 +12,12 @@
 //!   `render <disc> <k> <m> <opseed> P`     as `conc`, every draw followed by two renderings of all of the thread's treaps
 //!                                          (`TreePrinter`, `Debug` of `Treap` and of `TreapNode`): each must equal the
 //!                                          documented layout computed by hand and the rendering of the run alone
+//!   `stack <disc> <k> <m> <opseed> P`      (wave 3) tall thread-owned treaps (a spine of `m` levels, priorities written through the public
+//!                                          field); all `k` threads are held at the bottom of the same recursive operation at once
+//!   `panic <disc> <k> <m> <opseed> P`      (wave 3) odd threads have an item whose `update`/`push` callback panics (caught, or ending the
+//!                                          thread); even threads keep working, also after the neighbours have panicked; alone = fresh process
+//!   `exit <disc> <k> <m> <opseed> P`       (wave 3) the last draws of every thread come from a thread-local's destructor at thread exit
+//!   (`--profile debug`: the generator emits the real-thread kinds only, smaller — run against the debug build of rlib)
 //!   `sched <disc> P ; m0 m1 … ; i0 i1 …`   thread `j` makes `mj` draws (the schedule is for the model: real threads
 //!                                          are scheduled by the OS)
 //!   `fsched <disc> P ; m0 m1 … ; i0 i1 …`  the same; the model runs its fine-grained system (get/set,
@@ -32,7 +38,10 @@ use common::*;
 use rlib_rand::Rng;
 use rlib_treap::{TreapItem, TreapItemSized, TreapNode};
 use rlib_treap::{Treap, TreePrinter};
-use std::sync::{Arc, Barrier};
+use std::cell::{Cell, RefCell};
+use std::sync::atomic::{AtomicBool, AtomicUsize, Ordering};
+use std::sync::{Arc, Barrier, Mutex};
+use std::time::{Duration, Instant};
 
 #[derive(Clone, Copy, Debug)]
 struct Params {
@@ -262,6 +271,14 @@ enum Mode {
     /// as `Heavy`, and all treaps of the thread are rendered twice after every draw: threads spend their time
     /// inside `TreePrinter` / `Debug`
     Render,
+    /// (wave 3) tall thread-owned treaps (priorities written through the public field: a spine of `m` levels); all
+    /// threads are held at the bottom of the SAME recursive operation at the same instant (see `stack_body`)
+    Stack,
+    /// (wave 3) every second thread has an item whose `update`/`push` callback panics (caught inside the thread, or
+    /// ending the thread); the other threads work as in `Heavy`, and go on working after the neighbours have panicked
+    Panic,
+    /// (wave 3) as `Heavy`; the last draws of every thread are made from the destructor of a thread-local at thread exit
+    Exit,
 }
 
 struct ThreadOut {
@@ -278,11 +295,14 @@ struct ThreadOut {
     render_oracle: u64,
     ops: [u64; 8],
     panic: Option<String>,
+    /// `Panic` mode: this thread is one of those whose callbacks panic (its treap results are not judged), and how
+    /// many panics it caught
+    faulty: Option<u64>,
 }
 
 impl ThreadOut {
     fn died(why: String) -> ThreadOut {
-        ThreadOut { prios: Vec::new(), result: 0, oracle: 1, shape: 0, render: 0, render_oracle: 0, ops: [0; 8], panic: Some(why) }
+        ThreadOut { prios: Vec::new(), result: 0, oracle: 1, shape: 0, render: 0, render_oracle: 0, ops: [0; 8], panic: Some(why), faulty: None }
     }
 }
 
@@ -306,13 +326,18 @@ fn shape_into<T>(root: &Option<Box<TreapNode<T>>>, id: impl Fn(&T) -> u64, out: 
 /// (`insert_at`, `remove_at`, `split_at`, `merge`, `size`, `root`, `collect`) and a key-sorted one (`split_by`,
 /// `first`, `last`, `root_mut`, `is_empty`).
 fn thread_work(tid: usize, m: usize, opseed: u64, mode: Mode) -> ThreadOut {
-    match catch(|| thread_body(tid, m, opseed, mode)) {
+    thread_work_gated(tid, m, opseed, mode, 0, None)
+}
+
+/// `post` further rounds of non-drawing operations after the `m` draws; `gate` is called between the two phases
+fn thread_work_gated(tid: usize, m: usize, opseed: u64, mode: Mode, post: usize, gate: Option<&dyn Fn()>) -> ThreadOut {
+    match catch(|| thread_body(tid, m, opseed, mode, post, gate)) {
         Ok(o) => o,
         Err(e) => ThreadOut::died(e),
     }
 }
 
-fn thread_body(tid: usize, m: usize, opseed: u64, mode: Mode) -> ThreadOut {
+fn thread_body(tid: usize, m: usize, opseed: u64, mode: Mode, post: usize, gate: Option<&dyn Fn()>) -> ThreadOut {
     let mut rng = SplitMix64::new(opseed ^ (0x9E37_79B9u64.wrapping_mul(tid as u64 + 1)));
     let mut t: Treap<It> = Treap::new();
     let mut v: Vec<u64> = Vec::new();
@@ -328,10 +353,17 @@ fn thread_body(tid: usize, m: usize, opseed: u64, mode: Mode) -> ThreadOut {
     let mut orc: Vec<u64> = Vec::new();
     let mut ops = [0u64; 8];
     let cap = if mode == Mode::Deep { usize::MAX } else { 256 };
-    for d in 0..m {
+    for d in 0..m + post {
+        if d == m {
+            if let Some(g) = gate {
+                g();
+            }
+        }
         let id = ((tid as u64) << 32) | d as u64;
-        let kind = rng.below(7);
-        if kind < 3 && mode != Mode::Tie {
+        // (after the `m` draws: only the non-drawing operations below)
+        let kind = if d < m { rng.below(7) } else { 7 };
+        if kind == 7 {
+        } else if kind < 3 && mode != Mode::Tie {
             // the usual way: the node is created inside insert_at; read its priority back from the tree
             let pos = rng.below(v.len() as u64 + 1) as usize;
             t.insert_at(pos, It::new(id));
@@ -490,6 +522,8 @@ fn thread_body(tid: usize, m: usize, opseed: u64, mode: Mode) -> ThreadOut {
             // the bulk streams: often while the treaps are small, then rarely (a rendering is linear in the size)
             Mode::Normal => ((d < 256 && d % 8 == 0) || d % 1024 == 0) as usize,
             Mode::Deep => (d % 1024 == 0) as usize,
+            Mode::Panic | Mode::Exit => (d % 8 == 0) as usize,
+            Mode::Stack => 0,
         };
         for _ in 0..renders {
             render_all(&t, &mut rgot, &mut rwant);
@@ -514,7 +548,568 @@ fn thread_body(tid: usize, m: usize, opseed: u64, mode: Mode) -> ThreadOut {
     shape_into(&t.root, |i| i.id, &mut sh);
     shape_into(&s.root, |i| i.id, &mut sh);
     shape_into(&pt.root, |i| i.0, &mut sh);
-    ThreadOut { prios, result: fnv(&res), oracle: fnv(&orc), shape: fnv(&sh), render: fnv(&rgot), render_oracle: fnv(&rwant), ops, panic: None }
+    ThreadOut { prios, result: fnv(&res), oracle: fnv(&orc), shape: fnv(&sh), render: fnv(&rgot), render_oracle: fnv(&rwant), ops, panic: None, faulty: None }
+}
+
+// ---------------------------------------------------------------------------------------------
+// wave 3 (a): many threads at the bottom of a deep recursion at the same instant (`stack`)
+// ---------------------------------------------------------------------------------------------
+
+/// The threads of one run wait for each other at numbered points; gives up as soon as one of them failed.
+struct Rendezvous {
+    n: usize,
+    arrived: Vec<AtomicUsize>,
+    failed: AtomicBool,
+    timed_out: AtomicBool,
+}
+
+impl Rendezvous {
+    fn new(n: usize, rounds: usize) -> Rendezvous {
+        Rendezvous { n, arrived: (0..rounds).map(|_| AtomicUsize::new(0)).collect(), failed: AtomicBool::new(false), timed_out: AtomicBool::new(false) }
+    }
+    fn wait(&self, round: usize) {
+        if round >= self.arrived.len() {
+            return;
+        }
+        self.arrived[round].fetch_add(1, Ordering::SeqCst);
+        let deadline = Instant::now() + Duration::from_secs(60);
+        while self.arrived[round].load(Ordering::SeqCst) < self.n && !self.failed.load(Ordering::SeqCst) {
+            if Instant::now() > deadline {
+                self.timed_out.store(true, Ordering::SeqCst);
+                self.failed.store(true, Ordering::SeqCst);
+                break;
+            }
+            std::thread::yield_now();
+        }
+    }
+}
+
+thread_local! {
+    static STACK_CTX: RefCell<Option<Arc<Rendezvous>>> = RefCell::new(None);
+    /// `Some(r)`: the next callback of a marked item waits at rendezvous `r`
+    static ARMED: Cell<Option<usize>> = Cell::new(None);
+}
+
+fn rendezvous_if_armed() {
+    if let Some(r) = ARMED.with(|a| a.take()) {
+        let rv = STACK_CTX.with(|c| c.borrow().clone());
+        if let Some(rv) = rv {
+            rv.wait(r);
+        }
+    }
+}
+
+/// run one operation with rendezvous `r` armed; a thread whose operation did not meet the marked node arrives afterwards
+fn armed<R>(r: usize, f: impl FnOnce() -> R) -> R {
+    ARMED.with(|a| a.set(Some(r)));
+    let out = f();
+    rendezvous_if_armed();
+    out
+}
+
+/// item of the tall treaps: size and sum of ids; the `push` callback of the marked item (the deepest node of the
+/// spine) is where the thread waits for the others — in the middle of rlib's recursion
+struct Tall {
+    id: u64,
+    size: usize,
+    sum: u64,
+    mark: bool,
+}
+
+impl TreapItem for Tall {
+    fn update(&mut self, left: Option<&Self>, right: Option<&Self>) {
+        self.size = 1 + left.map_or(0, |l| l.size) + right.map_or(0, |r| r.size);
+        self.sum = self.id.wrapping_add(left.map_or(0, |l| l.sum)).wrapping_add(right.map_or(0, |r| r.sum));
+    }
+    fn push(&mut self, _left: Option<&mut Self>, _right: Option<&mut Self>) {
+        if self.mark {
+            rendezvous_if_armed();
+        }
+    }
+}
+
+impl TreapItemSized for Tall {
+    fn size(&self) -> usize {
+        self.size
+    }
+}
+
+const STACK_ROUNDS: usize = 6;
+
+/// `m` draws: `m-1` nodes linked into a spine (priorities 1, 2, 3, … written through the public field: a right spine
+/// by appending for even threads, a left spine by prepending for odd ones), then — every step with all threads
+/// waiting for each other at the deepest node, inside the callback — one more node merged in at the far end
+/// (`merge` recursion `m` levels deep), `split_at` and `split_by` at the far end, merges back, `collect_into`.
+fn stack_body(tid: usize, m: usize, opseed: u64) -> ThreadOut {
+    let right = (tid as u64 + opseed) % 2 == 0;
+    let d_of = |id: u64| (id & 0xffff_ffff) as usize;
+    let mut prios = Vec::with_capacity(m);
+    let (mut res, mut orc): (Vec<u64>, Vec<u64>) = (Vec::new(), Vec::new());
+    let mut t: Option<Box<TreapNode<Tall>>> = None;
+    let mut v: Vec<u64> = Vec::new();
+    let spine = m.saturating_sub(1);
+    for d in 0..spine {
+        let id = ((tid as u64) << 32) | d as u64;
+        let mut node = TreapNode::new(Tall { id, size: 1, sum: id, mark: d + 1 == spine });
+        prios.push(node.priority as u64);
+        node.priority = (d + 1) as u32 as _;
+        if right {
+            t = TreapNode::merge(t, Some(Box::new(node)));
+            v.push(id);
+        } else {
+            t = TreapNode::merge(Some(Box::new(node)), t);
+            v.insert(0, id);
+        }
+    }
+    let note = |res: &mut Vec<u64>, orc: &mut Vec<u64>, t: &Option<Box<TreapNode<Tall>>>, v: &Vec<u64>| {
+        res.push(t.as_ref().map_or(0, |r| r.item.size) as u64);
+        orc.push(v.len() as u64);
+        res.push(t.as_ref().map_or(0, |r| r.item.sum));
+        orc.push(v.iter().fold(0u64, |a, &x| a.wrapping_add(x)));
+    };
+    note(&mut res, &mut orc, &t, &v);
+    if m >= 1 {
+        // round 0: one more node at the far end — `merge` walks down the whole spine
+        let id = ((tid as u64) << 32) | (m - 1) as u64;
+        let mut node = TreapNode::new(Tall { id, size: 1, sum: id, mark: false });
+        prios.push(node.priority as u64);
+        node.priority = u32::MAX as _;
+        let old = t.take();
+        t = armed(0, || if right { TreapNode::merge(old, Some(Box::new(node))) } else { TreapNode::merge(Some(Box::new(node)), old) });
+        if right {
+            v.push(id);
+        } else {
+            v.insert(0, id);
+        }
+        note(&mut res, &mut orc, &t, &v);
+    }
+    // rounds 1, 2: `split_at` next to the far end, and back
+    let at = if right { v.len().saturating_sub(1) } else { 1.min(v.len()) };
+    let old = t.take();
+    let (a, b) = armed(1, || TreapNode::split_at(old, at));
+    res.push(a.as_ref().map_or(0, |r| r.item.size) as u64);
+    orc.push(at as u64);
+    res.push(b.as_ref().map_or(0, |r| r.item.sum));
+    orc.push(v[at..].iter().fold(0u64, |x, &y| x.wrapping_add(y)));
+    t = armed(2, || TreapNode::merge(a, b));
+    note(&mut res, &mut orc, &t, &v);
+    // rounds 3, 4: `split_by` with a predicate that holds on a prefix ending next to the far end, and back
+    let old = t.take();
+    let far = spine.saturating_sub(1);
+    let (a, b) = armed(3, || if right { TreapNode::split_by(old, |it| d_of(it.id) < far) } else { TreapNode::split_by(old, |it| d_of(it.id) > far) });
+    let cut = if right { far.min(v.len()) } else { v.iter().filter(|&&x| d_of(x) > far).count() };
+    res.push(a.as_ref().map_or(0, |r| r.item.size) as u64);
+    orc.push(cut as u64);
+    res.push(b.as_ref().map_or(0, |r| r.item.size) as u64);
+    orc.push((v.len() - cut) as u64);
+    t = armed(4, || TreapNode::merge(a, b));
+    note(&mut res, &mut orc, &t, &v);
+    // round 5: `collect_into` recurses along the spine
+    {
+        let mut all: Vec<&Tall> = Vec::new();
+        armed(5, || {
+            if let Some(r) = t.as_mut() {
+                r.collect_into(&mut all);
+            }
+        });
+        res.extend(all.iter().map(|i| i.id));
+        orc.extend(v.iter().copied());
+    }
+    let mut sh = Vec::new();
+    shape_into(&t, |i| i.id, &mut sh);
+    // (a tall treap is dropped recursively by the compiler-generated glue: take it apart by hand instead)
+    let mut cur = t;
+    while let Some(mut b) = cur {
+        cur = if b.left.is_some() && b.right.is_some() {
+            // neither spine has such a node; keep going on one side, the other is small
+            b.left.take()
+        } else {
+            b.left.take().or(b.right.take())
+        };
+    }
+    ThreadOut { prios, result: fnv(&res), oracle: fnv(&orc), shape: fnv(&sh), render: 0, render_oracle: 0, ops: [0; 8], panic: None, faulty: None }
+}
+
+fn big_stack<T: Send + 'static>(f: impl FnOnce() -> T + Send + 'static) -> std::thread::JoinHandle<T> {
+    std::thread::Builder::new().stack_size(64 << 20).spawn(f).expect("spawn")
+}
+
+fn run_stack(k: usize, m: usize, opseed: u64, together: bool) -> (Vec<ThreadOut>, bool) {
+    let work = move |tid: usize, rv: Arc<Rendezvous>| -> ThreadOut {
+        STACK_CTX.with(|c| *c.borrow_mut() = Some(rv.clone()));
+        match catch(|| stack_body(tid, m, opseed)) {
+            Ok(o) => o,
+            Err(e) => {
+                rv.failed.store(true, Ordering::SeqCst);
+                ThreadOut::died(e)
+            }
+        }
+    };
+    if together {
+        let rv = Arc::new(Rendezvous::new(k, STACK_ROUNDS));
+        let barrier = Arc::new(Barrier::new(k));
+        let hs: Vec<_> = (0..k)
+            .map(|tid| {
+                let (rv, b) = (rv.clone(), barrier.clone());
+                big_stack(move || {
+                    b.wait();
+                    work(tid, rv)
+                })
+            })
+            .collect();
+        let outs = hs.into_iter().map(|h| h.join().unwrap_or_else(|_| ThreadOut::died("panic:join".into()))).collect();
+        (outs, rv.timed_out.load(Ordering::SeqCst))
+    } else {
+        let outs = (0..k)
+            .map(|tid| {
+                let rv = Arc::new(Rendezvous::new(1, STACK_ROUNDS));
+                big_stack(move || work(tid, rv)).join().unwrap_or_else(|_| ThreadOut::died("panic:join".into()))
+            })
+            .collect();
+        (outs, false)
+    }
+}
+
+// ---------------------------------------------------------------------------------------------
+// wave 3 (b): threads whose item callbacks panic while the other threads keep working (`panic`)
+// ---------------------------------------------------------------------------------------------
+
+/// item of the faulty threads: `fuse` 1 = `update` panics when the node or one of its children carries the fuse,
+/// 2 = `push` panics on the node that carries it
+struct Bomb {
+    #[allow(dead_code)]
+    id: u64,
+    size: usize,
+    fuse: u8,
+}
+
+impl TreapItem for Bomb {
+    fn update(&mut self, left: Option<&Self>, right: Option<&Self>) {
+        if self.fuse == 1 || left.map_or(false, |l| l.fuse == 1) || right.map_or(false, |r| r.fuse == 1) {
+            panic!("item callback `update` fails (on purpose)");
+        }
+        self.size = 1 + left.map_or(0, |l| l.size) + right.map_or(0, |r| r.size);
+    }
+    fn push(&mut self, _left: Option<&mut Self>, _right: Option<&mut Self>) {
+        if self.fuse == 2 {
+            panic!("item callback `push` fails (on purpose)");
+        }
+    }
+}
+
+impl TreapItemSized for Bomb {
+    fn size(&self) -> usize {
+        self.size
+    }
+}
+
+fn is_faulty(tid: usize) -> bool {
+    tid % 2 == 1
+}
+
+/// A faulty thread: `m` draws like everybody else; now and then the new item carries a fuse, so that a callback panics
+/// in the middle of rlib's `merge`/`split_at` — caught with `catch_unwind`, the thread goes on with what is left. The
+/// last two draws make a two-node merge / split whose callback panics for certain: caught (flavours 0, 1) or not
+/// (flavours 2, 3: the thread dies, `join` reports it). Returns (what the thread saw, the final certain panic still to do).
+fn faulty_body(tid: usize, m: usize, opseed: u64) -> (ThreadOut, Option<Box<dyn FnOnce() + Send>>) {
+    let flavour = (tid / 2) % 4;
+    let fuse: u8 = if flavour % 2 == 0 { 1 } else { 2 };
+    let mut rng = SplitMix64::new(opseed ^ (0xB0B0_5EEDu64.wrapping_mul(tid as u64 + 1)));
+    let mut prios = Vec::with_capacity(m);
+    let mut caught = 0u64;
+    let mut t: Option<Box<TreapNode<Bomb>>> = None;
+    let body = m.saturating_sub(2);
+    for d in 0..body {
+        let id = ((tid as u64) << 32) | d as u64;
+        let mut node = TreapNode::new(Bomb { id, size: 1, fuse: 0 });
+        prios.push(node.priority as u64);
+        if rng.chance(1, 8) {
+            node.item.fuse = fuse;
+        }
+        let len = t.as_ref().map_or(0, |r| r.item.size);
+        let pos = rng.below(len as u64 + 1) as usize;
+        let rot = rng.below(len as u64 + 1) as usize;
+        let old = t.take();
+        let r = std::panic::catch_unwind(std::panic::AssertUnwindSafe(|| {
+            let (l, r) = TreapNode::split_at(old, pos);
+            let t1 = TreapNode::merge(TreapNode::merge(l, Some(Box::new(node))), r);
+            let (a, b) = TreapNode::split_at(t1, rot);
+            TreapNode::merge(b, a)
+        }));
+        match r {
+            Ok(t2) => t = t2,
+            // whatever was detached is gone with the unwinding: start again from an empty treap
+            Err(_) => caught += 1,
+        }
+    }
+    let mut last: Vec<Box<TreapNode<Bomb>>> = Vec::new();
+    for d in body..m {
+        let id = ((tid as u64) << 32) | d as u64;
+        let node = TreapNode::new(Bomb { id, size: 1, fuse });
+        prios.push(node.priority as u64);
+        last.push(Box::new(node));
+    }
+    let certain: Option<Box<dyn FnOnce() + Send>> = if last.len() == 2 {
+        let b = last.pop();
+        let a = last.pop();
+        Some(Box::new(move || {
+            // `update` flavour: the root of the merge is updated with a fused child; `push` flavour: `merge` pushes its root
+            let _ = TreapNode::merge(a, b);
+        }))
+    } else {
+        None
+    };
+    let mut out = ThreadOut { prios, result: 0, oracle: 0, shape: 0, render: 0, render_oracle: 0, ops: [0; 8], panic: None, faulty: Some(caught) };
+    if flavour < 2 {
+        if let Some(f) = certain {
+            if std::panic::catch_unwind(std::panic::AssertUnwindSafe(f)).is_err() {
+                out.faulty = Some(caught + 1);
+            }
+        }
+        (out, None)
+    } else {
+        (out, certain)
+    }
+}
+
+const PANIC_POST: usize = 200;
+
+/// `panic` mode, all threads together: the healthy ones (even ids) do the `Heavy` mix, wait until every faulty thread
+/// has finished or died, and then go on with `PANIC_POST` rounds of operations on their treaps.
+fn run_panic_together(k: usize, m: usize, opseed: u64) -> Vec<ThreadOut> {
+    let barrier = Arc::new(Barrier::new(k));
+    let go_on = Arc::new(AtomicBool::new(false));
+    let mut healthy = Vec::new();
+    let mut faulty = Vec::new();
+    for tid in 0..k {
+        let b = barrier.clone();
+        if is_faulty(tid) {
+            let slot: Arc<Mutex<Option<ThreadOut>>> = Arc::new(Mutex::new(None));
+            let s2 = slot.clone();
+            let h = std::thread::spawn(move || {
+                b.wait();
+                let (out, certain) = faulty_body(tid, m, opseed);
+                *s2.lock().unwrap() = Some(out);
+                if let Some(f) = certain {
+                    f(); // not caught: the thread ends here
+                }
+            });
+            faulty.push((tid, h, slot));
+        } else {
+            let g = go_on.clone();
+            let h = std::thread::spawn(move || {
+                b.wait();
+                let gate = move || {
+                    let deadline = Instant::now() + Duration::from_secs(60);
+                    while !g.load(Ordering::SeqCst) && Instant::now() < deadline {
+                        std::thread::yield_now();
+                    }
+                };
+                thread_work_gated(tid, m, opseed, Mode::Panic, PANIC_POST, Some(&gate))
+            });
+            healthy.push((tid, h));
+        }
+    }
+    let mut outs: Vec<Option<ThreadOut>> = (0..k).map(|_| None).collect();
+    for (tid, h, slot) in faulty {
+        let died = h.join().is_err();
+        let mut o = slot.lock().unwrap().take().unwrap_or_else(|| ThreadOut::died("panic:faulty-thread-lost".into()));
+        if died {
+            o.faulty = o.faulty.map(|c| c + 1);
+        }
+        outs[tid] = Some(o);
+    }
+    go_on.store(true, Ordering::SeqCst);
+    for (tid, h) in healthy {
+        outs[tid] = Some(h.join().unwrap_or_else(|_| ThreadOut::died("panic:join".into())));
+    }
+    outs.into_iter().map(|o| o.unwrap()).collect()
+}
+
+/// the healthy threads of a `panic` case run alone, one after the other (no faulty thread ever runs in this process)
+fn run_panic_alone(k: usize, m: usize, opseed: u64) -> Vec<Option<ThreadOut>> {
+    (0..k)
+        .map(|tid| {
+            if is_faulty(tid) {
+                None
+            } else {
+                Some(
+                    std::thread::spawn(move || thread_work_gated(tid, m, opseed, Mode::Panic, PANIC_POST, None))
+                        .join()
+                        .unwrap_or_else(|_| ThreadOut::died("panic:join".into())),
+                )
+            }
+        })
+        .collect()
+}
+
+/// `alone <line>` (a fresh child process of the worker): one line per thread `result shape render panic|-`
+fn alone_child(line: &str) {
+    if let Some((_disc, progs, opseed, _p, Mode::Panic)) = parse_run_line(line) {
+        for o in run_panic_alone(progs.len(), progs[0], opseed) {
+            match o {
+                None => println!("skip"),
+                Some(o) => println!("{} {} {} {}", o.result, o.shape, o.render, o.panic.unwrap_or_else(|| "-".into())),
+            }
+        }
+    }
+}
+
+fn panic_alone_from_child(line: &str, k: usize) -> Option<Vec<Option<ThreadOut>>> {
+    let exe = std::env::current_exe().ok()?;
+    let o = std::process::Command::new(exe).arg("alone").arg(line).stderr(std::process::Stdio::null()).output().ok()?;
+    if !o.status.success() {
+        return None;
+    }
+    let text = String::from_utf8_lossy(&o.stdout).to_string();
+    let mut v = Vec::new();
+    for l in text.lines() {
+        let ts: Vec<&str> = l.split_whitespace().collect();
+        if ts == ["skip"] {
+            v.push(None);
+        } else if ts.len() == 4 {
+            let mut t = ThreadOut::died(String::new());
+            t.result = ts[0].parse().ok()?;
+            t.shape = ts[1].parse().ok()?;
+            t.render = ts[2].parse().ok()?;
+            t.panic = if ts[3] == "-" { None } else { Some(ts[3].to_string()) };
+            v.push(Some(t));
+        } else {
+            return None;
+        }
+    }
+    if v.len() == k {
+        Some(v)
+    } else {
+        None
+    }
+}
+
+// ---------------------------------------------------------------------------------------------
+// wave 3 (c): nodes created while the thread exits, from the destructor of a thread-local (`exit`)
+// ---------------------------------------------------------------------------------------------
+
+#[derive(Default)]
+struct ExitOut {
+    prios: Vec<u64>,
+    result: u64,
+    oracle: u64,
+    panic: Option<String>,
+    ran: bool,
+}
+
+struct ExitJob {
+    tid: usize,
+    first: usize,
+    count: usize,
+    seed: u64,
+    slot: Arc<Mutex<ExitOut>>,
+}
+
+impl Drop for ExitJob {
+    fn drop(&mut self) {
+        let (tid, first, count, seed) = (self.tid, self.first, self.count, self.seed);
+        let r = catch(move || {
+            let mut rng = SplitMix64::new(seed ^ 0xE417);
+            let mut prios = Vec::new();
+            let mut t: Treap<It> = Treap::new();
+            let mut v: Vec<u64> = Vec::new();
+            for j in 0..count {
+                let id = ((tid as u64) << 32) | (first + j) as u64;
+                let pos = rng.below(v.len() as u64 + 1) as usize;
+                if j % 2 == 0 {
+                    t.insert_at(pos, It::new(id));
+                    prios.push(prio_at(&t.root, pos).expect("inserted node not found") as u64);
+                } else {
+                    let node = TreapNode::new(It::new(id));
+                    prios.push(node.priority as u64);
+                    let (l, r) = TreapNode::split_at(t.root.take(), pos);
+                    t.root = TreapNode::merge(TreapNode::merge(l, Some(Box::new(node))), r);
+                }
+                v.insert(pos, id);
+            }
+            let mut got: Vec<u64> = t.collect().iter().map(|i| i.id).collect();
+            got.push(t.size() as u64);
+            let mut want = v.clone();
+            want.push(v.len() as u64);
+            (prios, fnv(&got), fnv(&want))
+        });
+        if let Ok(mut s) = self.slot.lock() {
+            s.ran = true;
+            match r {
+                Ok((p, a, b)) => {
+                    s.prios = p;
+                    s.result = a;
+                    s.oracle = b;
+                }
+                Err(e) => s.panic = Some(e),
+            }
+        }
+    }
+}
+
+thread_local! {
+    static EXIT_HOOK: RefCell<Option<ExitJob>> = RefCell::new(None);
+}
+
+fn exit_draws(m: usize) -> usize {
+    (m / 2).min(16)
+}
+
+/// one thread of an `exit` case: `m - e` draws in the thread body (the `Heavy` mix), the last `e` from the destructor of
+/// a thread-local — registered BEFORE the thread's first node for even threads (it then runs after the destructors of
+/// whatever thread-locals the library registered), after the body for odd ones
+fn exit_thread(tid: usize, m: usize, opseed: u64, slot: Arc<Mutex<ExitOut>>) -> ThreadOut {
+    let e = exit_draws(m);
+    let job = ExitJob { tid, first: m - e, count: e, seed: opseed ^ tid as u64, slot };
+    let mut job = Some(job);
+    if tid % 2 == 0 {
+        EXIT_HOOK.with(|h| *h.borrow_mut() = job.take());
+    }
+    let out = thread_work(tid, m - e, opseed, Mode::Exit);
+    if let Some(j) = job.take() {
+        EXIT_HOOK.with(|h| *h.borrow_mut() = Some(j));
+    }
+    out
+}
+
+fn run_exit(k: usize, m: usize, opseed: u64, together: bool) -> Vec<ThreadOut> {
+    let barrier = Arc::new(Barrier::new(if together { k } else { 1 }));
+    let mut pending = Vec::new();
+    let mut outs = Vec::new();
+    let finish = |h: std::thread::JoinHandle<ThreadOut>, slot: Arc<Mutex<ExitOut>>| -> ThreadOut {
+        let mut o = h.join().unwrap_or_else(|_| ThreadOut::died("panic:join".into()));
+        let s = slot.lock().unwrap();
+        if o.panic.is_none() {
+            if !s.ran && exit_draws(m) > 0 {
+                o.panic = Some("exit:destructor-did-not-run".into());
+            } else if let Some(p) = &s.panic {
+                o.panic = Some(format!("exit:{}", p));
+            } else {
+                o.prios.extend(s.prios.iter().copied());
+                o.result = fnv(&[o.result, s.result]);
+                o.oracle = fnv(&[o.oracle, s.oracle]);
+            }
+        }
+        o
+    };
+    for tid in 0..k {
+        let slot: Arc<Mutex<ExitOut>> = Arc::new(Mutex::new(ExitOut::default()));
+        let (s2, b) = (slot.clone(), barrier.clone());
+        let h = std::thread::spawn(move || {
+            b.wait();
+            exit_thread(tid, m, opseed, s2)
+        });
+        if together {
+            pending.push((h, slot));
+        } else {
+            outs.push(finish(h, slot));
+        }
+    }
+    for (h, slot) in pending {
+        outs.push(finish(h, slot));
+    }
+    outs
 }
 
 /// the programs on real threads released together by a barrier
@@ -554,6 +1149,10 @@ fn run_alone(progs: &[usize], opseed: u64, mode: Mode) -> Vec<ThreadOut> {
 /// runs (thread-local generator, or forced priorities), so the shapes must be equal too.
 fn treap_verdict(outs: &[ThreadOut], solo: &[ThreadOut], shapes: bool) -> Option<String> {
     for (i, o) in outs.iter().enumerate() {
+        if o.faulty.is_some() && o.panic.is_none() {
+            // a thread whose own callbacks panic: only its priority stream is judged
+            continue;
+        }
         if let Some(p) = &o.panic {
             let alone = if solo[i].panic.is_none() { "succeeds" } else { "panics-too" };
             return Some(format!("fail:treap-thread{}-{}-while-the-same-operations-run-alone-{}", i, p, alone));
@@ -626,8 +1225,43 @@ fn worker(line: &str) -> String {
     if seq.len() != total {
         return out2("no-sequential-reference", "fail:no-sequential-reference");
     }
-    let outs = run_concurrently(&progs, opseed, mode);
-    let solo = run_alone(&progs, opseed, mode);
+    let mut harness_trouble: Option<String> = None;
+    let (outs, solo) = match mode {
+        Mode::Stack => {
+            let (o, timed_out) = run_stack(k, progs[0], opseed, true);
+            if timed_out {
+                harness_trouble = Some("rendezvous-timed-out".into());
+            }
+            (o, run_stack(k, progs[0], opseed, false).0)
+        }
+        Mode::Exit => (run_exit(k, progs[0], opseed, true), run_exit(k, progs[0], opseed, false)),
+        Mode::Panic => {
+            // the run alone first, in a fresh process of its own: no callback ever panics there
+            let alone = panic_alone_from_child(line, k);
+            let o = run_panic_together(k, progs[0], opseed);
+            let solo: Vec<ThreadOut> = match alone {
+                Some(v) => v
+                    .into_iter()
+                    .enumerate()
+                    .map(|(i, a)| a.unwrap_or_else(|| ThreadOut { prios: Vec::new(), result: o[i].result, oracle: o[i].oracle, shape: o[i].shape, render: o[i].render, render_oracle: o[i].render_oracle, ops: [0; 8], panic: None, faulty: o[i].faulty }))
+                    .collect(),
+                None => {
+                    harness_trouble = Some("run-alone-child-died".into());
+                    (0..k).map(|_| ThreadOut::died("alone-child".into())).collect()
+                }
+            };
+            for (i, t) in o.iter().enumerate() {
+                if is_faulty(i) && progs[0] >= 2 && t.panic.is_none() && t.faulty.unwrap_or(0) == 0 {
+                    harness_trouble = Some(format!("thread{}-callback-that-panics-was-never-called-by-merge", i));
+                }
+            }
+            (o, solo)
+        }
+        _ => (run_concurrently(&progs, opseed, mode), run_alone(&progs, opseed, mode)),
+    };
+    if let Some(why) = harness_trouble {
+        return out2(&why, &format!("fail:{}", why));
+    }
     // a thread that panicked has no complete stream: that is the finding, not the missing draws
     if outs.iter().any(|o| o.panic.is_some()) {
         let v = treap_verdict(&outs, &solo, false).unwrap_or_else(|| "fail:thread-panicked".into());
@@ -713,7 +1347,7 @@ fn worker(line: &str) -> String {
             .collect();
         raw = format!("{} observed:{}", raw, obs.join(";"));
     } else {
-        let shapes = mode == Mode::Tie || disc == "threadLocal";
+        let shapes = mode == Mode::Tie || mode == Mode::Stack || disc == "threadLocal";
         if let Some(f) = treap_verdict(&outs, &solo, shapes) {
             view = f;
         }
@@ -733,7 +1367,7 @@ fn parse_run_line(line: &str) -> Option<(String, Vec<usize>, u64, Params, Mode)>
     let parts: Vec<&str> = line.split(';').map(|s| s.trim()).collect();
     let ts: Vec<&str> = parts[0].split_whitespace().collect();
     match ts.first().copied() {
-        Some("conc") | Some("tie") | Some("deep") | Some("render") if parts.len() == 1 && ts.len() == 11 => {
+        Some("conc") | Some("tie") | Some("deep") | Some("render") | Some("stack") | Some("panic") | Some("exit") if parts.len() == 1 && ts.len() == 11 => {
             let k: usize = ts[2].parse().ok()?;
             let m: usize = ts[3].parse().ok()?;
             let opseed: u64 = ts[4].parse().ok()?;
@@ -745,6 +1379,9 @@ fn parse_run_line(line: &str) -> Option<(String, Vec<usize>, u64, Params, Mode)>
                 "tie" => Mode::Tie,
                 "deep" => Mode::Deep,
                 "render" => Mode::Render,
+                "stack" => Mode::Stack,
+                "panic" => Mode::Panic,
+                "exit" => Mode::Exit,
                 _ => Mode::Normal,
             };
             Some((ts[1].to_string(), vec![m; k], opseed, p, mode))
@@ -777,7 +1414,7 @@ fn run_case(line: &str, disc: &str) -> String {
             let real: Vec<u64> = (0..n).map(|_| p.mask(rng.next_raw())).collect();
             out1(&show_stream(&real))
         }
-        Some("conc") | Some("tie") | Some("deep") | Some("render") | Some("sched") | Some("fsched") => {
+        Some("conc") | Some("tie") | Some("deep") | Some("render") | Some("stack") | Some("panic") | Some("exit") | Some("sched") | Some("fsched") => {
             if parse_run_line(line).is_none() {
                 return out1("INVALID");
             }
@@ -865,6 +1502,11 @@ fn main() {
         }
         std::process::exit(if bad { 3 } else { 0 });
     }
+    if argv.get(1).map(|s| s.as_str()) == Some("alone") {
+        install_quiet_panic_hook();
+        alone_child(argv.get(2).map(|s| s.as_str()).unwrap_or(""));
+        return;
+    }
     if argv.get(1).map(|s| s.as_str()) == Some("worker") {
         install_quiet_panic_hook();
         println!("{}", worker(argv.get(2).map(|s| s.as_str()).unwrap_or("")));
@@ -885,6 +1527,9 @@ fn main() {
                 seed: g("rngseed", 0),
             };
             let thorough = args.tier == "thorough";
+            // the debug build of rlib (debug_assert!, cfg(debug_assertions), overflow checks) gets the cases with real
+            // threads only, in smaller sizes: the generator arithmetic and the model's schedules do not depend on the profile
+            let debug = args.extra.get("profile").map_or(false, |s| s == "debug");
             let mut rng = SplitMix64::new(args.seed);
             emit("disc".to_string());
             stats.bump("disc");
@@ -899,7 +1544,7 @@ fn main() {
             for _ in 0..(if thorough { 200 } else { 30 }) {
                 seeds.push(rng.next_u64());
             }
-            if !have_lcg {
+            if !have_lcg || debug {
                 seeds.clear();
             }
             for &s in &seeds {
@@ -909,7 +1554,7 @@ fn main() {
                     stats.bump("stream");
                 }
             }
-            for n in [1000usize, 100_000].into_iter().filter(|_| have_lcg) {
+            for n in [1000usize, 100_000].into_iter().filter(|_| have_lcg && !debug) {
                 emit(format!("stream {} {}", p.show(), n));
                 emit(format!("stream {} {}", Params { seed: rng.next_u64(), ..p }.show(), n));
                 stats.add("stream", 2);
@@ -917,7 +1562,7 @@ fn main() {
             // (ii) exhaustive small scope: every interleaving of small programs (model side follows the
             // schedule; the real threads are scheduled by the OS). Only for one-step disciplines: under a
             // split discipline the model itself violates the property on some of these schedules.
-            let safe = matches!(disc.as_str(), "threadLocal" | "mutex" | "atomicRmw");
+            let safe = matches!(disc.as_str(), "threadLocal" | "mutex" | "atomicRmw") && !debug;
             if safe {
                 let scopes: Vec<Vec<usize>> = if thorough {
                     vec![vec![1, 1], vec![2, 1], vec![2, 2], vec![3, 2], vec![3, 3], vec![1, 1, 1], vec![2, 2, 1], vec![2, 2, 2], vec![4, 3], vec![3, 2, 2], vec![1, 1, 1, 1], vec![2, 1, 1, 1]]
@@ -1000,7 +1645,9 @@ fn main() {
                 }
             }
             // (iii) stress: k threads × m draws with treap operations
-            let plan: Vec<(usize, usize, usize)> = if thorough {
+            let plan: Vec<(usize, usize, usize)> = if debug {
+                if thorough { vec![(2, 1000, 3), (4, 1000, 3), (16, 1000, 3), (8, 10_000, 1), (16, 5_000, 1)] } else { vec![(2, 500, 1), (4, 300, 1), (16, 100, 1), (8, 1500, 1)] }
+            } else if thorough {
                 // (k, m, repetitions)
                 vec![(2, 1000, 10), (4, 1000, 10), (8, 1000, 10), (16, 1000, 10), (2, 100_000, 6), (4, 50_000, 6), (8, 40_000, 6), (16, 25_000, 6), (2, 400_000, 2), (8, 100_000, 2), (16, 60_000, 3)]
             } else {
@@ -1018,8 +1665,11 @@ fn main() {
             // `tie`  = every node's public `priority` field overwritten with 0..3 (ties in every merge), shapes compared
             //          with the same operations run alone;
             // `deep` = many more threads than cores, uncapped treaps, every thread inside split/merge most of the time
-            let tie_plan: Vec<(usize, usize, usize)> =
-                if thorough { vec![(2, 400, 4), (4, 400, 4), (8, 300, 4), (16, 200, 4)] } else { vec![(2, 300, 1), (4, 300, 1), (16, 150, 1)] };
+            let tie_plan: Vec<(usize, usize, usize)> = if debug {
+                if thorough { vec![(4, 200, 3)] } else { vec![(4, 80, 1)] }
+            } else if thorough { vec![(2, 400, 4), (4, 400, 4), (8, 300, 4), (16, 200, 4)] } else {
+                vec![(2, 300, 1), (4, 300, 1), (16, 150, 1)]
+            };
             for (k, m, reps) in tie_plan {
                 for _ in 0..reps {
                     emit(format!("tie {} {} {} {} {}", disc, k, m, rng.next_u64() >> 1, p.show()));
@@ -1029,8 +1679,11 @@ fn main() {
             }
             // `render` = every thread renders its own treaps (TreePrinter / Debug) after every draw: state shared
             // through the printing code shows as a text that differs from the documented layout / the run alone
-            let render_plan: Vec<(usize, usize, usize)> =
-                if thorough { vec![(2, 400, 2), (4, 400, 2), (8, 300, 2), (16, 200, 2), (64, 100, 1)] } else { vec![(4, 300, 1), (16, 150, 1)] };
+            let render_plan: Vec<(usize, usize, usize)> = if debug {
+                if thorough { vec![(4, 100, 3)] } else { vec![(4, 50, 1)] }
+            } else if thorough { vec![(2, 400, 2), (4, 400, 2), (8, 300, 2), (16, 200, 2), (64, 100, 1)] } else {
+                vec![(4, 300, 1), (16, 150, 1)]
+            };
             for (k, m, reps) in render_plan {
                 for _ in 0..reps {
                     emit(format!("render {} {} {} {} {}", disc, k, m, rng.next_u64() >> 1, p.show()));
@@ -1038,14 +1691,54 @@ fn main() {
                     stats.add("render_draws", (k * m) as u64);
                 }
             }
-            let deep_plan: Vec<(usize, usize, usize)> =
-                if thorough { vec![(64, 3000, 3), (48, 10_000, 1), (64, 30_000, 1)] } else { vec![(64, 3000, 1)] };
+            let deep_plan: Vec<(usize, usize, usize)> = if debug {
+                if thorough { vec![(64, 1500, 1)] } else { vec![(64, 200, 1)] }
+            } else if thorough {
+                vec![(64, 3000, 3), (48, 10_000, 1), (64, 30_000, 1)]
+            } else {
+                vec![(64, 3000, 1)]
+            };
             for (k, m, reps) in deep_plan {
                 for _ in 0..reps {
                     emit(format!("deep {} {} {} {} {}", disc, k, m, rng.next_u64() >> 1, p.show()));
                     stats.bump("deep");
                     stats.add("deep_draws", (k * m) as u64);
                     stats.add("deep_threads", k as u64);
+                }
+            }
+            // (v) wave 3 — interference that needs a particular situation rather than a particular schedule (both profiles):
+            // `stack` = tall thread-owned treaps (priorities written through the public field), ALL threads held at the bottom
+            //           of the same recursive operation (merge / split_at / split_by / collect_into) at the same instant by a
+            //           rendezvous inside the item callback;
+            // `panic` = every second thread's `update`/`push` callback panics (caught inside the thread, or the thread dies and
+            //           is joined); the others keep working, also after the neighbours have panicked;
+            // `exit`  = the last draws of every thread are made from the destructor of a thread-local while the thread exits
+            let w3: [(&str, Vec<(usize, usize, usize)>); 3] = if thorough && debug {
+                [
+                    ("stack", vec![(16, 300, 2), (64, 500, 1), (16, 1500, 1), (2, 300, 1)]),
+                    ("panic", vec![(2, 2000, 1), (8, 1000, 1), (16, 500, 2), (64, 200, 1)]),
+                    ("exit", vec![(2, 1000, 1), (8, 500, 1), (16, 200, 2), (64, 100, 1)]),
+                ]
+            } else if thorough {
+                [
+                    ("stack", vec![(16, 300, 2), (64, 500, 2), (64, 2000, 1), (32, 4000, 1), (2, 300, 1)]),
+                    ("panic", vec![(2, 2000, 3), (8, 1000, 3), (16, 500, 3), (64, 200, 2)]),
+                    ("exit", vec![(2, 1000, 2), (8, 500, 2), (16, 200, 3), (64, 100, 2)]),
+                ]
+            } else {
+                [
+                    ("stack", vec![(16, 300, 1), (64, 200, 1), (4, 1000, 1)]),
+                    ("panic", vec![(2, 500, 1), (8, 300, 1), (16, 150, 1)]),
+                    ("exit", vec![(4, 200, 1), (16, 100, 1)]),
+                ]
+            };
+            for (kind, plan) in w3 {
+                for (k, m, reps) in plan {
+                    for _ in 0..reps {
+                        emit(format!("{} {} {} {} {} {}", kind, disc, k, m, rng.next_u64() >> 1, p.show()));
+                        stats.bump(kind);
+                        stats.add(&format!("{}_draws", kind), (k * m) as u64);
+                    }
                 }
             }
         },
